@@ -145,7 +145,10 @@ if __name__ == "__main__":
     for i in range(jobs):
         SLOTS.put(i)          # slot 0 shares /verif/.work/target
     sites = {"cmp": cmp_sites, "del": del_sites, "one": one_sites}[kind]()
-    if len(sys.argv) > 3:
+    if len(sys.argv) > 3 and sys.argv[3].startswith("@"):
+        want = set(open(sys.argv[3][1:]).read().split("\n"))
+        sites = [s for s in sites if s["name"] in want]
+    elif len(sys.argv) > 3:
         sites = [s for s in sites if re.search(sys.argv[3], s["name"])]
     print("%d variants" % len(sites), flush=True)
     os.makedirs(os.path.join(VERIF, "notes"), exist_ok=True)
